@@ -12,8 +12,22 @@ import (
 	"golang.org/x/tools/go/ssa"
 )
 
+// lookup finds the contract for a key, preferring the variant written for the engine's mode
+// (`opt mode=<m>` in the contract block; stored under key@m).
+func (e *Engine) lookup(key string) *Contract {
+	if e.mode != "" {
+		if c, ok := e.specs.Contracts[key+"@"+e.mode]; ok {
+			return c
+		}
+	}
+	if c, ok := e.specs.Contracts[key]; ok {
+		return c
+	}
+	return nil
+}
+
 func (e *Engine) contractFor(fn *ssa.Function) *Contract {
-	return e.specs.Contracts[fn.String()]
+	return e.lookup(fn.String())
 }
 
 // ifaceKeys returns candidate contract keys for an interface method call.
@@ -108,7 +122,7 @@ func (e *Engine) doCall(fr *Frame, st *State, c *ssa.CallCommon, fnv *Val, args 
 			}
 		}
 		for _, key := range e.ifaceKeys(c) {
-			if ct, ok := e.specs.Contracts[key]; ok {
+			if ct := e.lookup(key); ct != nil {
 				e.applyContract(fr, st, ct, nil, sig, append([]*Val{recv}, args...), pos, k)
 				return
 			}
@@ -131,7 +145,7 @@ func (e *Engine) doCall(fr *Frame, st *State, c *ssa.CallCommon, fnv *Val, args 
 	}
 	// function-typed struct field with a field contract?
 	if key := e.funcValueKey(c.Value); key != "" {
-		if ct, ok := e.specs.Contracts[key]; ok {
+		if ct := e.lookup(key); ct != nil {
 			e.safety(fr, st, "nil function call", not(eq(fnv.T, "nil_func")), pos)
 			e.applyContract(fr, st, ct, nil, sig, args, pos, k)
 			return
@@ -174,7 +188,7 @@ func (e *Engine) callFunction(fr *Frame, st *State, fn *ssa.Function, binds []*V
 		k(st, v)
 		return
 	}
-	if ct, ok := e.specs.Contracts[name]; ok && (fn != e.curFn || fr.depth > 0) && ct.Opts["inline"] == "" {
+	if ct := e.lookup(name); ct != nil && (fn != e.curFn || fr.depth > 0) && ct.Opts["inline"] == "" {
 		e.applyContract(fr, st, ct, fn, fn.Signature, args, pos, k)
 		return
 	}
@@ -191,7 +205,7 @@ func (e *Engine) callFunction(fr *Frame, st *State, fn *ssa.Function, binds []*V
 }
 
 func (e *Engine) inlineWanted(name string) bool {
-	if c, ok := e.specs.Contracts[name]; ok && c.Opts["inline"] != "" {
+	if c := e.lookup(name); c != nil && c.Opts["inline"] != "" {
 		return true
 	}
 	return false
@@ -370,50 +384,145 @@ func (e *Engine) pkgOfContract(ct *Contract, fn *ssa.Function) *ssa.Package {
 }
 
 // havocModifies havocs ghost variables and heap designators.
-func (e *Engine) havocModifies(st *State, ctx *EvalCtx, mods []string) error {
+// modTargets resolves modifies designators:
+//   ghostName | heap | key:<K> | *ptrExpr | mapof(expr) | elems(expr) | expr.field
+// into ghost names, heap keys (coarse: the whole array of that kind) and precise cells.
+type modTargets struct {
+	ghosts []string
+	keys   []string
+	all    bool
+	cells  []*Val // pointer values whose pointee is modified (precise)
+}
+
+func (e *Engine) resolveMods(ctx *EvalCtx, mods []string) (*modTargets, error) {
+	mt := &modTargets{}
 	for _, m := range mods {
 		m = strings.TrimSpace(m)
 		if m == "" {
 			continue
 		}
 		if _, ok := e.specs.Ghosts[m]; ok {
-			st.ghost[m] = st.fresh("g_"+m, e.ghostSort(m))
+			mt.ghosts = append(mt.ghosts, m)
 			continue
 		}
 		if m == "heap" {
-			e.havocAllHeap(st)
-			continue
-		}
-		if strings.HasPrefix(m, "*") {
-			// cell pointed to by a parameter
-			ex, err := parseExpr(m[1:])
-			if err != nil {
-				return err
-			}
-			p, err := ctx.eval(ex)
-			if err != nil {
-				return err
-			}
-			pt, ok := p.Typ.Underlying().(*types.Pointer)
-			if !ok {
-				return fmt.Errorf("modifies %s: not a pointer", m)
-			}
-			so := e.reg.sortOf(pt.Elem())
-			nv := &Val{T: st.fresh("out", so), S: so, Typ: pt.Elem()}
-			st.assume(e.wfVal(st, nv.T, so))
-			if err := e.store(st, p, pt.Elem(), nv); err != nil {
-				return err
-			}
+			mt.all = true
 			continue
 		}
 		if strings.HasPrefix(m, "key:") {
-			k := m[4:]
-			if _, ok := e.hsorts[k]; ok {
-				e.heapHavoc(st, k)
-			}
+			mt.keys = append(mt.keys, m[4:])
 			continue
 		}
-		return fmt.Errorf("unknown modifies designator %q", m)
+		if strings.HasPrefix(m, "*") {
+			ex, err := parseExpr(m[1:])
+			if err != nil {
+				return nil, err
+			}
+			p, err := ctx.eval(ex)
+			if err != nil {
+				return nil, err
+			}
+			if p.Typ == nil {
+				return nil, fmt.Errorf("modifies %s: untyped", m)
+			}
+			if _, ok := p.Typ.Underlying().(*types.Pointer); !ok {
+				return nil, fmt.Errorf("modifies %s: not a pointer", m)
+			}
+			mt.cells = append(mt.cells, p)
+			continue
+		}
+		ex, err := parseExpr(m)
+		if err != nil {
+			return nil, fmt.Errorf("modifies designator %q: %v", m, err)
+		}
+		switch {
+		case ex.Op == "ident" && ctx.pkg != nil && ctx.pkg.Members[ex.S] != nil:
+			g, ok := ctx.pkg.Members[ex.S].(*ssa.Global)
+			if !ok {
+				return nil, fmt.Errorf("modifies %s: not a package-level variable", m)
+			}
+			mt.keys = append(mt.keys, e.keyGlobal(g))
+		case ex.Op == "call" && (ex.S == "mapof" || ex.S == "elems") && len(ex.Args) == 1:
+			v, err := ctx.eval(ex.Args[0])
+			if err != nil {
+				return nil, err
+			}
+			if v.Typ == nil {
+				return nil, fmt.Errorf("modifies %s: untyped", m)
+			}
+			switch u := v.Typ.Underlying().(type) {
+			case *types.Map:
+				ks, vs := e.reg.sortOf(u.Key()), e.reg.sortOf(u.Elem())
+				mt.keys = append(mt.keys, e.keyMapP(ks, vs), e.keyMapV(ks, vs))
+			case *types.Slice:
+				mt.keys = append(mt.keys, e.keyElem(e.reg.sortOf(u.Elem())))
+			default:
+				return nil, fmt.Errorf("modifies %s: not a map or slice", m)
+			}
+		case ex.Op == "field":
+			b, err := ctx.eval(ex.Args[0])
+			if err != nil {
+				return nil, err
+			}
+			pt, ok := b.Typ.Underlying().(*types.Pointer)
+			if !ok {
+				return nil, fmt.Errorf("modifies %s: base is not a pointer", m)
+			}
+			stt, ok := pt.Elem().Underlying().(*types.Struct)
+			if !ok {
+				return nil, fmt.Errorf("modifies %s: base is not a pointer to struct", m)
+			}
+			ss := e.reg.structSort(pt.Elem())
+			found := false
+			for i := 0; i < stt.NumFields(); i++ {
+				if stt.Field(i).Name() == ex.S {
+					found = true
+					if _, nested := stt.Field(i).Type().Underlying().(*types.Struct); nested {
+						ks := map[string]bool{}
+						e.allocKeys(stt.Field(i).Type(), ks)
+						for k := range ks {
+							mt.keys = append(mt.keys, k)
+						}
+					} else {
+						mt.keys = append(mt.keys, e.keyField(ss, i))
+					}
+				}
+			}
+			if !found {
+				return nil, fmt.Errorf("modifies %s: no such field", m)
+			}
+		default:
+			return nil, fmt.Errorf("unknown modifies designator %q", m)
+		}
+	}
+	return mt, nil
+}
+
+// havocModifies havocs ghost variables and heap designators at a call site.
+func (e *Engine) havocModifies(st *State, ctx *EvalCtx, mods []string) error {
+	mt, err := e.resolveMods(ctx, mods)
+	if err != nil {
+		return err
+	}
+	for _, g := range mt.ghosts {
+		st.ghost[g] = st.fresh("g_"+g, e.ghostSort(g))
+	}
+	if mt.all {
+		e.havocAllHeap(st)
+	}
+	for _, k := range mt.keys {
+		if _, ok := e.hsorts[k]; ok {
+			e.heapHavoc(st, k)
+		}
+	}
+	for _, p := range mt.cells {
+		pt := p.Typ.Underlying().(*types.Pointer)
+		so := e.reg.sortOf(pt.Elem())
+		nv := &Val{T: st.fresh("out", so), S: so, Typ: pt.Elem()}
+		st.assume(e.wfVal(st, nv.T, so))
+		if err := e.store(st, p, pt.Elem(), nv); err != nil {
+			return err
+		}
 	}
 	return nil
 }
@@ -443,6 +552,7 @@ func (e *Engine) builtin(fr *Frame, st *State, b *ssa.Builtin, c *ssa.CallCommon
 		case sInt:
 			if mt, ok := c.Args[0].Type().Underlying().(*types.Map); ok {
 				_ = mt
+				e.guardCheck(fr, st, x, false, pos)
 				r.T = st.fresh("maplen", sBV64)
 				st.assume("(bvsge " + r.T + " #x0000000000000000)")
 				return r, nil
@@ -530,4 +640,35 @@ func (e *Engine) constLen(v *Val) (int, bool) {
 
 type intrinsic func(e *Engine, fr *Frame, st *State, args []*Val, pos token.Pos) (*Val, error)
 
-var intrinsics = map[string]intrinsic{}
+var intrinsics = map[string]intrinsic{
+	// reflect.DeepEqual on two values of the same struct type whose fields are scalars, strings or []byte:
+	// structural equality, with nil and empty []byte distinguished (as DeepEqual does).
+	"reflect.DeepEqual": func(e *Engine, fr *Frame, st *State, args []*Val, pos token.Pos) (*Val, error) {
+		a, b := args[0], args[1]
+		if a.Dyn != nil && b.Dyn != nil && a.Box != nil && b.Box != nil && types.Identical(a.Dyn, b.Dyn) && e.flatComparable(a.Box.S) {
+			return &Val{T: eq(a.Box.T, b.Box.T), S: sBool, Typ: types.Typ[types.Bool]}, nil
+		}
+		e.warnf("%s: reflect.DeepEqual on values of unknown or unsupported dynamic type: opaque result", fr.fn)
+		return &Val{T: st.fresh("deepequal", sBool), S: sBool, Typ: types.Typ[types.Bool]}, nil
+	},
+}
+
+// flatComparable: sorts on which SMT equality coincides with reflect.DeepEqual.
+func (e *Engine) flatComparable(s string) bool {
+	switch s {
+	case sBool, sStr, sBytes:
+		return true
+	}
+	if bvWidth(s) > 0 {
+		return true
+	}
+	if info, ok := e.reg.structs[s]; ok {
+		for _, f := range info.FSorts {
+			if !e.flatComparable(f) {
+				return false
+			}
+		}
+		return true
+	}
+	return false
+}
